@@ -27,6 +27,22 @@ import (
 	"github.com/cosmos72/gomacro/fast"
 )
 
+// c02pstruct: a struct-valued state (type PS struct{ A int; B string }); values travel as strings
+// (B; A = len(B)), so that multi-assignment of ADDRESSABLE non-basic values is exercised too
+var c02pstruct *bkind
+
+func c02kind(name string) *bkind {
+	if name == "pstruct" {
+		if c02pstruct == nil {
+			k := *bkinds["string"]
+			k.name = "pstruct"
+			c02pstruct = &k
+		}
+		return c02pstruct
+	}
+	return bkinds[name]
+}
+
 type c02stmt struct {
 	lhs []string
 	op  string
@@ -71,7 +87,7 @@ func c02parseMulti(line string) (*c02multi, error) {
 		return nil, fmt.Errorf("short op")
 	}
 	m := &c02multi{line: line, stor: f[2]}
-	if m.k = bkinds[f[1]]; m.k == nil {
+	if m.k = c02kind(f[1]); m.k == nil {
 		return nil, fmt.Errorf("bad kind")
 	}
 	switch m.stor {
@@ -217,6 +233,9 @@ func (m *c02multi) stmtSrc(n string) (string, bool) {
 				if lit == "" {
 					return "", false
 				}
+				if m.k.name == "pstruct" {
+					lit = fmt.Sprintf("PS%s{%d, %s}", n, len(v.s), lit)
+				}
 				r = append(r, lit)
 			case t == "two":
 				d++
@@ -250,36 +269,56 @@ const c02logStep = "N = (N*10 + int64(d)) % 1000000000000000"
 
 // declarations shared by gomacro and compiled Go (n = name suffix)
 func (m *c02multi) source(n string) (decls string, ok bool) {
-	T := m.k.name
+	T, TA := m.k.name, m.k.name
+	mk := func(x string) string { return x }
+	un := func(x string) string { return x }
 	stmts, ok := m.stmtSrc(n)
 	if !ok {
 		return "", false
 	}
-	stmts = strings.ReplaceAll(stmts, "N", "N") // (log variable is the shared N)
 	var b strings.Builder
 	w := func(format string, a ...interface{}) { fmt.Fprintf(&b, format, a...) }
+	if m.k.name == "pstruct" {
+		T, TA = "PS"+n, "string"
+		mk = func(x string) string { return fmt.Sprintf("PS%s{len(%s), %s}", n, x, x) }
+		un = func(x string) string { return fmt.Sprintf("UN%s(%s)", n, x) }
+		w("type PS%s struct { A int; B string }\n", n)
+		w("func UN%s(p PS%s) string { if p.A != len(p.B) { return \"!\" + p.B }; return p.B }\n", n, n)
+	}
 	w("func IX%s(d int, r int) int { %s; return r }\n", n, c02logStep)
 	w("func K%s(d int, k string) string { %s; return k }\n", n, c02logStep)
 	w("func R%s(d int, v %s) %s { %s; return v }\n", n, T, T, c02logStep)
+	rets := fmt.Sprintf("%s, %s, %s, int, %s, %s, %s, %s, %s, %s, int", TA, TA, TA, TA, TA, TA, TA, TA, TA)
+	vals := func() string {
+		var out []string
+		for _, x := range []string{"X" + n, "Y" + n, "Z" + n} {
+			out = append(out, un(x))
+		}
+		out = append(out, "I"+n)
+		for _, x := range []string{"A" + n + "[0]", "A" + n + "[1]", "A" + n + "[2]", "M" + n + "[\"a\"]", "M" + n + "[\"b\"]", "M" + n + "[\"c\"]"} {
+			out = append(out, un(x))
+		}
+		return strings.Join(append(out, "len(M"+n+")"), ", ")
+	}
 	if m.stor == "L" {
-		w("func F%s(v0, v1, v2, v3, v4, v5 %s, i0 int) (%s, %s, %s, int, %s, %s, %s, %s, %s, %s, int) {\n", n, T, T, T, T, T, T, T, T, T, T)
-		w("\tX%s, Y%s, Z%s := v0, v1, v2\n\tI%s := i0\n\tA%s := [3]%s{v3, v4, v5}\n\tS%s := A%s[:]\n\tM%s := map[string]%s{\"a\": v3, \"b\": v4}\n", n, n, n, n, n, T, n, n, n, T)
+		w("func F%s(v0, v1, v2, v3, v4, v5 %s, i0 int) (%s) {\n", n, TA, rets)
+		w("\tX%s, Y%s, Z%s := %s, %s, %s\n\tI%s := i0\n\tA%s := [3]%s{%s, %s, %s}\n\tS%s := A%s[:]\n\tM%s := map[string]%s{\"a\": %s, \"b\": %s}\n",
+			n, n, n, mk("v0"), mk("v1"), mk("v2"), n, n, T, mk("v3"), mk("v4"), mk("v5"), n, n, n, T, mk("v3"), mk("v4"))
 		w("\tPP%s := func(d int, i int) *%s { %s; return &A%s[i] }\n", n, T, c02logStep, n)
 		w("\tTwo%s := func(d int) (%s, %s) { %s; return Y%s, X%s }\n", n, T, T, c02logStep, n, n)
 		w("\tThree%s := func(d int) (%s, %s, %s) { %s; return Z%s, X%s, Y%s }\n", n, T, T, T, c02logStep, n, n, n)
 		w("\t_, _, _, _, _ = S%s, PP%s, Two%s, Three%s, I%s\n\tN = 0\n", n, n, n, n, n)
 		w("\t%s\n", stmts)
-		w("\treturn X%s, Y%s, Z%s, I%s, A%s[0], A%s[1], A%s[2], M%s[\"a\"], M%s[\"b\"], M%s[\"c\"], len(M%s)\n}\n", n, n, n, n, n, n, n, n, n, n, n)
+		w("\treturn %s\n}\n", vals())
 		return b.String(), true
 	}
 	w("var X%s, Y%s, Z%s %s\nvar I%s int\nvar A%s [3]%s\nvar S%s = A%s[:]\nvar M%s map[string]%s\n", n, n, n, T, n, n, T, n, n, n, T)
 	w("func PP%s(d int, i int) *%s { %s; return &A%s[i] }\n", n, T, c02logStep, n)
 	w("func Two%s(d int) (%s, %s) { %s; return Y%s, X%s }\n", n, T, T, c02logStep, n, n)
 	w("func Three%s(d int) (%s, %s, %s) { %s; return Z%s, X%s, Y%s }\n", n, T, T, T, c02logStep, n, n, n)
-	w("func Init%s(v0, v1, v2, v3, v4, v5 %s, i0 int) int {\n\tX%s, Y%s, Z%s = v0, v1, v2\n\tI%s = i0\n\tA%s[0] = v3; A%s[1] = v4; A%s[2] = v5\n\tM%s = map[string]%s{\"a\": v3, \"b\": v4}\n\tN = 0\n\treturn 0\n}\n",
-		n, T, n, n, n, n, n, n, n, n, T)
-	w("func Get%s() (%s, %s, %s, int, %s, %s, %s, %s, %s, %s, int) {\n\treturn X%s, Y%s, Z%s, I%s, A%s[0], A%s[1], A%s[2], M%s[\"a\"], M%s[\"b\"], M%s[\"c\"], len(M%s)\n}\n",
-		n, T, T, T, T, T, T, T, T, T, n, n, n, n, n, n, n, n, n, n, n)
+	w("func Init%s(v0, v1, v2, v3, v4, v5 %s, i0 int) int {\n\tX%s, Y%s, Z%s = %s, %s, %s\n\tI%s = i0\n\tA%s[0] = %s; A%s[1] = %s; A%s[2] = %s\n\tM%s = map[string]%s{\"a\": %s, \"b\": %s}\n\tN = 0\n\treturn 0\n}\n",
+		n, TA, n, n, n, mk("v0"), mk("v1"), mk("v2"), n, n, mk("v3"), n, mk("v4"), n, mk("v5"), n, T, mk("v3"), mk("v4"))
+	w("func Get%s() (%s) {\n\treturn %s\n}\n", n, rets, vals())
 	if m.stor != "T" {
 		w("func F%s() int {\n\t%s\n\treturn 0\n}\n", n, stmts)
 	}
@@ -772,6 +811,22 @@ func c02genMulti(g *c02gen) {
 						continue
 					}
 					g.emit(fmt.Sprintf("multi %s %s %d %s | %s", k.name, st, i0, pat, strings.Join(g.tuples(k, 3), " ")))
+				}
+			}
+		}
+		if kn == "string" {
+			// the same patterns on a struct-valued state (addressable non-basic values: `dup` matters)
+			for _, pat := range c02multiPatterns {
+				for _, st := range stors {
+					if st == "T" && strings.Contains(pat, ";") {
+						continue
+					}
+					for _, i0 := range []int{0, 1} {
+						if i0 == 1 && !strings.Contains(pat, "I") {
+							continue
+						}
+						g.emit(fmt.Sprintf("multi pstruct %s %d %s | %s", st, i0, pat, strings.Join(g.tuples(k, 2), " ")))
+					}
 				}
 			}
 		}
